@@ -178,20 +178,178 @@ func c22Scripts() [][]c22Step {
 		return out
 	}}, 1, 3)
 	b9 := c22Deliver(mcDelivery{Name: "ch5:new-round:deposit-b9", Chain: 5, NewRound: true, TsOffset: 55 * sec, Build: mcCrDepositBTC("c22-b9", "9")})
+	// a mint (consensus-class singleton) finalized on chain 1 with an ordinary
+	// snapshot of chain 6 landing between its WriteSnapshot and its consensus
+	// record (chain 6 also carries the pledge at 20 s: 19 s fits the same round in
+	// either order)
+	mint := c22MintInterleaved("ch1:mint+ch6:deposit-between-snapshot-and-consensus-record", 1, 12*sec,
+		mcDelivery{Name: "ch6:deposit-m1", Chain: 6, TsOffset: 19 * sec, Build: mcCrDepositBTC("c22-m1", "1")})
 	// External references with round numbers >= 1 in BOTH directions of the node
 	// order (chain 3 -> chain 5 by finalY, chain 5 -> chain 3 by dupC), each
 	// followed by a further round transition of the same chain towards the same
 	// node (b10 for chain 3, b9 for chain 5), so that restarts happen on ledgers
 	// with non-zero LINK records towards nodes ordered before AND after the
 	// chain's own id and the continuation performs round transitions over them.
-	// order constraints: dupA after b1 and before b5; dupB after split and ehu;
+	// order constraints: mint (12 s) before pledge (20 s): consensus operations are
+	// recorded in timestamp order (an older one after a newer one takes the
+	// mainnet-only "hack" branch of WriteConsensusSnapshotWithHack);
+	// dupA after b1 and before b5; dupB after split and ehu;
 	// dupC after three, b2 and dupB; b9 after dupC; finalY after dupB; b10 after finalY
 	return [][]c22Step{
-		{fundP, b1, b2, dupA, three, pledge, split, b5, ehu, dupB, admitX, finalY, dupC, work3, b9, b10, work2},
-		{b1, dupA, b2, fundP, ehu, three, admitX, split, dupB, pledge, dupC, finalY, b5, b10, b9, work2, work3},
-		{b2, b1, three, admitX, fundP, split, pledge, dupA, b5, ehu, dupB, finalY, work3, dupC, b10, b9, work2},
-		{ehu, fundP, pledge, b1, three, b2, admitX, split, dupB, work2, dupA, dupC, finalY, b10, b5, b9, work3},
+		{fundP, b1, mint, b2, dupA, three, pledge, split, b5, ehu, dupB, admitX, finalY, dupC, work3, b9, b10, work2},
+		{b1, dupA, mint, b2, fundP, ehu, three, admitX, split, dupB, pledge, dupC, finalY, b5, b10, b9, work2, work3},
+		{b2, b1, three, mint, admitX, fundP, split, pledge, dupA, b5, ehu, dupB, finalY, work3, dupC, b10, b9, work2},
+		{mint, ehu, fundP, pledge, b1, three, b2, admitX, split, dupB, work2, dupA, dupC, finalY, b10, b5, b9, work3},
 	}
+}
+
+// ---- mint ---------------------------------------------------------------------
+
+type c22GenesisFacts struct {
+	marker crypto.Hash // consensus record of the genesis ledger
+	topo   uint64      // topological order of the last genesis snapshot
+	batch  uint64      // last mint batch of the genesis ledger
+}
+
+var c22GenesisOnce sync.Once
+var c22GenesisVal c22GenesisFacts
+
+func c22Genesis() c22GenesisFacts {
+	c22GenesisOnce.Do(func() {
+		m, err := newMCNode(mcNet7, 0, "")
+		if err != nil {
+			panic(err)
+		}
+		defer m.Close()
+		last, err := m.Store.ReadLastConsensusSnapshot()
+		if err != nil || last == nil {
+			panic(fmt.Sprint("harness: genesis consensus record ", err))
+		}
+		head, _ := m.Store.LastSnapshot()
+		c22GenesisVal = c22GenesisFacts{marker: last.PayloadHash(), topo: head.TopologicalOrder, batch: m.Node.lastMintDistribution().Batch}
+	})
+	return c22GenesisVal
+}
+
+func c22ConsensusClass(tx *common.VersionedTransaction) bool {
+	if tx == nil { // a corrupt ledger (body missing): the other invariants report it
+		return false
+	}
+	switch tx.TransactionType() {
+	case common.TransactionTypeMint,
+		common.TransactionTypeNodePledge,
+		common.TransactionTypeNodeCancel,
+		common.TransactionTypeNodeAccept,
+		common.TransactionTypeNodeRemove,
+		common.TransactionTypeCustodianUpdateNodes,
+		common.TransactionTypeCustodianSlashNodes:
+		return true
+	}
+	return false
+}
+
+// c22MintTx builds THE mint of a script (batch = genesis batch + 1) the way
+// mcCrMint does, but idempotently: when the batch is already locked (the step is
+// repeated after a restart) the stored body is returned, so the repetition can
+// never produce a second, different mint.
+func c22MintTx(m *mcNode) *common.VersionedTransaction {
+	batch := c22Genesis().batch + 1
+	dists, _, err := m.Store.ReadMintDistributions(batch, 1)
+	if err != nil {
+		panic(err)
+	}
+	if len(dists) > 0 && dists[0].Batch == batch {
+		tx, _, err := m.Store.ReadTransaction(dists[0].Transaction)
+		if err != nil {
+			panic(err)
+		}
+		if tx != nil {
+			return tx
+		}
+	}
+	a := mcCrAcct()
+	tx := common.NewTransactionV5(common.XINAssetId)
+	tx.AddUniversalMintInput(batch, common.NewIntegerFromString("89.87671232"))
+	tx.AddScriptOutput([]*common.Address{&a}, common.NewThresholdScript(1), common.NewIntegerFromString("89.87671232"), fixc.Seed64("mint-out:c22"))
+	last, err := m.Store.ReadLastConsensusSnapshot()
+	if err != nil || last == nil {
+		panic(fmt.Sprint("no consensus snapshot ", err))
+	}
+	tx.References = []crypto.Hash{last.Transactions[0]}
+	ver := tx.AsVersioned()
+	if err := ver.SignRaw(m.Net.Signers[0].PrivateSpendKey); err != nil {
+		panic(err)
+	}
+	return ver
+}
+
+// c22MintInterleaved finalizes the mint on `chain` through the post-validation
+// tail of cosiHandleFinalization (as mcDeliver's TailOnly mode and C21 do:
+// takeover lock + persist, AddSnapshot -> WriteSnapshot, reloadConsensusState ->
+// consensus record), with ONE fixed interleaving of another chain's loop: the
+// ordinary delivery `between` is handled by the real cosiHandleFinalization
+// after the mint's WriteSnapshot and before its consensus record. Every commit
+// of both is a crash cut.
+func c22MintInterleaved(name string, chain int, tsOff time.Duration, between mcDelivery) c22Step {
+	return c22Step{name: name, run: func(m *mcNode) {
+		ts := m.Net.Epoch + uint64(mcCrashBase+tsOff)
+		chainId := m.Net.NodeIds[chain]
+		ch := m.chainOf(chainId)
+		tx := c22MintTx(m)
+		if err := m.Store.CacheStoreTransaction(tx); err != nil {
+			panic(err)
+		}
+		cache, final := ch.StateCopy()
+		s := &common.Snapshot{Version: common.SnapshotVersionCommonEncoding, NodeId: chainId, Timestamp: ts, RoundNumber: cache.Number, References: cache.References.Copy()}
+		s.AddTransaction(tx.PayloadHash())
+		s.Hash = s.PayloadHash()
+		ids, publics := ch.ConsensusKeys(s.RoundNumber, ts)
+		idx := mcSignerSet(ids, chainId, m.Node.ConsensusThreshold(ts, true))
+		s.Signature = mcDetCosiSign(m.Net, publics, idx, s.Hash)
+		signers := make([]crypto.Hash, len(idx))
+		for i, k := range idx {
+			signers[i] = ids[k]
+		}
+		if err := m.Node.lockAndPersistTransaction(tx, true); err != nil {
+			panic(fmt.Errorf("lockAndPersistTransaction(%s): %w", name, err))
+		}
+		added := false
+		if err := cache.ValidateSnapshot(s); err == nil {
+			if err := ch.AddSnapshot(final, cache, s, signers); err != nil {
+				panic(err)
+			}
+			added = true
+		} else if !strings.Contains(err.Error(), "duplication") {
+			panic(fmt.Errorf("harness: %s: mint snapshot refused: %w", name, err))
+		}
+		bb := between
+		mcDeliver(m, &bb)
+		if added {
+			if err := m.Node.reloadConsensusState(s, tx); err != nil {
+				panic(err)
+			}
+		}
+	}}
+}
+
+// c22MintUnrecordedBeforeRestart: the durable ledger holds the mint snapshot,
+// it is NOT the last topology entry, and the consensus record before the
+// restart (preMarker) was an older snapshot, i.e. the restart had to replay it.
+func c22MintUnrecordedBeforeRestart(m *mcNode, preMarker crypto.Hash) bool {
+	snaps, txs, err := m.Store.ReadSnapshotWithTransactionsSinceTopology(c22Genesis().topo+1, 500)
+	if err != nil {
+		return false
+	}
+	pre, err := m.Store.ReadSnapshot(preMarker)
+	if err != nil || pre == nil {
+		return false
+	}
+	for i, sn := range snaps {
+		if len(txs[i]) == 1 && txs[i][0] != nil && txs[i][0].TransactionType() == common.TransactionTypeMint {
+			return i < len(snaps)-1 && sn.PayloadHash() != preMarker && pre.TopologicalOrder < sn.TopologicalOrder
+		}
+	}
+	return false
 }
 
 // c22DeliverNewRoundExt is mcDeliver for a snapshot that opens round
@@ -242,7 +400,6 @@ func c22DeliverNewRoundExt(m *mcNode, d *mcDelivery, ext int) {
 func c22DeliverExt(d mcDelivery, ext int) c22Step {
 	return c22Step{name: d.Name, run: func(m *mcNode) { dd := d; c22DeliverNewRoundExt(m, &dd, ext) }}
 }
-
 
 // c22Reinclude delivers a finalized snapshot whose first `dups` transactions (in
 // Build order) are ALREADY finalized by a snapshot of another chain. Driver
@@ -395,6 +552,33 @@ func c22Invariants(m *mcNode, report func(key, desc string), ctx string) {
 			report("topology-bijection", fmt.Sprintf("%s: SNAPTOPO of %s is %q, TOPOLOGY says %s", ctx, hash, rev[hex.EncodeToString([]byte("SNAPTOPO"))+hash], tk))
 		}
 	}
+	// consensus bookkeeping: the consensus record equals the last consensus-class
+	// singleton snapshot in durable topological order, and the node's mint batch
+	// counter equals the stored (finalized) mint batch
+	g := c22Genesis()
+	want, wantTx := g.marker, crypto.Hash{}
+	snaps, txs, err := st.ReadSnapshotWithTransactionsSinceTopology(g.topo+1, 500)
+	if err != nil {
+		report("topology-unreadable", fmt.Sprintf("%s: %v", ctx, err))
+	}
+	for i, sn := range snaps {
+		if len(txs[i]) != 1 || !c22ConsensusClass(txs[i][0]) {
+			continue
+		}
+		if h := txs[i][0].PayloadHash(); h != wantTx {
+			want, wantTx = sn.PayloadHash(), h
+		}
+	}
+	if last, err := st.ReadLastConsensusSnapshot(); err != nil || last == nil || last.PayloadHash() != want {
+		got := "none"
+		if last != nil {
+			got = last.PayloadHash().String()
+		}
+		report("restart:consensus-record-behind-topology", fmt.Sprintf("%s: the last consensus-class snapshot in durable topological order is %s but the consensus record is %s (%v)", ctx, want, got, err))
+	}
+	if lm := m.Node.lastMintDistribution().Batch; m.Node.LastMint != lm {
+		report("restart:last-mint-stale", fmt.Sprintf("%s: node.LastMint=%d but the stored mint distribution is batch %d", ctx, m.Node.LastMint, lm))
+	}
 	// every chain's head state loads and agrees with the stored rounds and links
 	for _, id := range m.Net.NodeIds {
 		ch := m.chainOf(id)
@@ -529,7 +713,7 @@ func c22Normalize(d map[string]string) map[string]string {
 func TestMC_C22(t *testing.T) {
 	c := verifmc.Start(t, "C22", "model_checking")
 	defer c.Finish()
-	c.SetRule("4 fixed multi-chain scripts of 17 kernel-level steps (finalization deliveries through the real cosiHandleFinalization incl. new rounds, a 3-member batch, a node pledge with consensus marker and node-operation lock, an empty-head reference update, an unfinalized admission displaced by a finalized takeover, round-work aggregation, and three re-inclusions of an already finalized transaction by a finalized snapshot of another chain - in a head round, as first snapshot of a new round, inside a 2-member batch - each followed by a round transition of the re-including chain so that the round with the duplicate becomes final; two new rounds reference another chain's final round >= 1, one towards a later-ordered and one towards an earlier-ordered node, each followed by a further round transition of the same chain over that link); each script is cut before EVERY durable commit of the snapshot DB; after each cut: reopen + real SetupNode + invariants, invariants incl. in-memory chain state (links towards every node, head references, final round) == store, then the rest of the script is re-delivered and the final database compared byte for byte with the uncut run")
+	c.SetRule("4 fixed multi-chain scripts of 18 kernel-level steps (finalization deliveries through the real cosiHandleFinalization incl. new rounds, a 3-member batch, a node pledge with consensus marker and node-operation lock, an empty-head reference update, an unfinalized admission displaced by a finalized takeover, round-work aggregation, a mint finalized through the post-validation tail with another chain's ordinary snapshot landing between its WriteSnapshot and its consensus record, and three re-inclusions of an already finalized transaction by a finalized snapshot of another chain - in a head round, as first snapshot of a new round, inside a 2-member batch - each followed by a round transition of the re-including chain so that the round with the duplicate becomes final; two new rounds reference another chain's final round >= 1, one towards a later-ordered and one towards an earlier-ordered node, each followed by a further round transition of the same chain over that link); each script is cut before EVERY durable commit of the snapshot DB; after each cut: reopen + real SetupNode + invariants, invariants incl. in-memory chain state (links towards every node, head references, final round) == store, then the rest of the script is re-delivered and the final database compared byte for byte with the uncut run")
 	c.Assume("a Badger commit is the atomic durable unit; durable state after 'crash before commit k' is exactly commits 1..k-1", "fixed scripts instead of a randomized workload (stated deviation); peers re-deliver finalizations after a restart")
 	base := mcScratchDir("c22-")
 	defer mcRemoveAll(base)
@@ -560,6 +744,7 @@ func TestMC_C22(t *testing.T) {
 		c22Invariants(run.M, func(k, d string) { c.Violation(k, d, map[string]any{"script": si, "cut": "none"}) }, fmt.Sprintf("script %d uncut", si))
 		finals[si] = c22Normalize(run.M.Store.VerifDump(""))
 		dupAll, dupFinal := c22Duplicates(run.M)
+		c.Require(run.M.Node.lastMintDistribution().Batch == c22Genesis().batch+1, "script %d: the mint was not finalized in the uncut run", si)
 		lf, lb := c22Links(run.M)
 		c.Require(len(lf) >= 1 && len(lb) >= 1, "script %d: the uncut run ends with %d links >= 1 towards later-ordered nodes and %d towards earlier-ordered nodes; both directions are needed", si, len(lf), len(lb))
 		c.Require(dupAll == 3 && dupFinal == 3, "script %d: expected 3 cross-chain re-inclusions, all in final rounds at the end; got %d, %d final", si, dupAll, dupFinal)
@@ -574,6 +759,7 @@ func TestMC_C22(t *testing.T) {
 	classes := map[string]int{}
 	restartsWithDup, restartsWithFinalDup, maxFinalDup := 0, 0, 0
 	restartsFwd, restartsBwd, contFwd, contBwd := 0, 0, 0, 0
+	restartsMintRepaired := 0
 	c.ParallelN(len(jobs), "crash cuts", func(_, ji int) {
 		j := jobs[ji]
 		steps := scripts[j.script]
@@ -585,6 +771,10 @@ func TestMC_C22(t *testing.T) {
 		}
 		run := mcOpenRun(dir, j.cut, false)
 		at, p := c22RunSteps(run.M, steps, 0, run.Ctl)
+		var preMarker crypto.Hash
+		if last, err := run.M.Store.ReadLastConsensusSnapshot(); err == nil && last != nil {
+			preMarker = last.PayloadHash()
+		}
 		run.Crash()
 		c.Eval(1)
 		c.AddTrans(1)
@@ -608,6 +798,7 @@ func TestMC_C22(t *testing.T) {
 		c22Invariants(re, report, ctx+" in step "+steps[at].name)
 		dupAll, dupFinal := c22Duplicates(re)
 		linksFwd, linksBwd := c22Links(re)
+		mintAhead := c22MintUnrecordedBeforeRestart(re, preMarker)
 		heads := c22Heads(re)
 		// continue: the interrupted step and everything after it is re-delivered
 		if fa, p2 := c22RunSteps(re, steps, at, nil); p2 != nil {
@@ -633,6 +824,9 @@ func TestMC_C22(t *testing.T) {
 		if tf > 0 {
 			contFwd++
 		}
+		if mintAhead {
+			restartsMintRepaired++
+		}
 		if tb > 0 {
 			contBwd++
 		}
@@ -653,6 +847,8 @@ func TestMC_C22(t *testing.T) {
 	c.Set("restarts_with_cross_chain_reinclusion", restartsWithDup)
 	c.Set("restarts_with_reinclusion_in_final_round", restartsWithFinalDup)
 	c.Set("max_reinclusions_in_final_rounds_at_restart", maxFinalDup)
+	c.Set("restarts_with_mint_snapshot_durable_but_unrecorded_and_not_last", restartsMintRepaired)
+	c.Require(restartsMintRepaired >= 2 || c.Violations() > 0, "only %d restarts on a ledger whose mint snapshot was durable, unrecorded and followed by another chain's snapshot", restartsMintRepaired)
 	c.Set("restarts_with_link_ge1_to_later_ordered_node", restartsFwd)
 	c.Set("restarts_with_link_ge1_to_earlier_ordered_node", restartsBwd)
 	c.Set("continuations_with_round_transition_over_link_to_later_node", contFwd)
